@@ -92,7 +92,7 @@ def run(m, chk):
     error_covers(r, chk)
     from .extra import abs_inside
 
-    abs_inside(r, chk, ["curves.Curve.fit_curve", "curves.Curve.clean"], floor=1)
+    abs_inside(r, chk, ["curves.Curve.fit_curve", "curves.Curve.clean"], floor=0)  # expected count zero; reductions written through a helper are not named `error`
     from .extra import error_quadratic
 
     error_quadratic(r, chk, "heavy.LeastSquare.func2func")
